@@ -20,6 +20,43 @@ def is_json(x):
     return False
 
 
+def enum_probe(R):
+    """enums whose values are not all primitives: the value is serialized like any value of its class"""
+    from enum import Enum
+    from typing import List, Optional, Dict
+    from apischema import serialize
+    import apischema.cache
+    src = "class Mixed(Enum): A = (1, 2); B = 'b'; C = 3\nclass Tuples(Enum): P = (1, (2, 3)); Q = ()\nclass Plain(Enum): X = 1; Y = 'y'"
+
+    class Mixed(Enum):
+        A = (1, 2)
+        B = "b"
+        C = 3
+
+    class Tuples(Enum):
+        P = (1, (2, 3))
+        Q = ()
+
+    class Plain(Enum):
+        X = 1
+        Y = "y"
+    apischema.cache.reset()
+    cases = [(Mixed, Mixed.A, [1, 2]), (Mixed, Mixed.B, "b"), (Mixed, Mixed.C, 3), (List[Mixed], [Mixed.A, Mixed.B], [[1, 2], "b"]),
+             (Tuples, Tuples.P, [1, [2, 3]]), (Optional[Tuples], Tuples.Q, []), (Dict[str, Mixed], {"k": Mixed.A}, {"k": [1, 2]}),
+             (Plain, Plain.X, 1), (List[Plain], [Plain.Y], ["y"])]
+    for tp, v, want in cases:
+        for no_copy in (True, False):
+            R.count("enum_probe")
+            try:
+                got = serialize(tp, v, no_copy=no_copy)
+            except Exception as e:
+                R.violation(f"serialize({tp}, {v!r}) raised {type(e).__name__}: {e}", dict(source=src))
+                continue
+            if got != want or not is_json(got):
+                R.violation(f"serialize({tp}, {v!r}) = {got!r}: expected the JSON form {want!r} of the member's value", dict(source=src))
+    apischema.cache.reset()
+
+
 def run(tier):
     R = core.Run("C04", tier)
     R.trusted = core.TRUSTED_COMMON + ["hand-written model of serialization/methods.py + __init__.py for check_type=False and "
@@ -54,6 +91,7 @@ def run(tier):
 
     P.hooks.append(checks)
     P.run()
+    enum_probe(R)
     bad_img = P.check("C04_image", C_IMAGE)
     for c in bad_img[:10]:
         R.violation("serialize disagrees with the documented image (Coq spec) on a well-typed value", c.to_json())
@@ -62,8 +100,11 @@ def run(tier):
     # pass_through.dataclasses resolves a nested, non recursive dataclass whose fields are all identities to the identity
     # at compile time; the model keeps a reference (SRec) there: those cases are outside the model
     def nested_passthrough(c):
-        return c.opts["pt"]["dataclasses"] and any(
-            f["ty"] != () and "obj" in repr(f["ty"]) for cl in c.u["classes"] for f in cl["fields"])
+        if not c.opts["pt"]["dataclasses"]:
+            return False
+        if c.t[0] != "obj" and "obj" in repr(c.t):
+            return True       # a dataclass inside a collection / tuple / union
+        return any("obj" in repr(f["ty"]) for cl in c.u["classes"] for f in cl["fields"])
     modelled = [c for c in P.cases if not nested_passthrough(c)]
     R.hist["outside_model:nested_dataclass_pass_through"] = len(P.cases) - len(modelled)
     bad_model = P.check("C04_model", C_SMODEL, subset=modelled)
